@@ -5,14 +5,17 @@ from harness.props import C02
 
 EXTRA_OBLIGATION_FILES = ("Props/C04_kits.v",)
 
-LEVEL_NOTE = ("Theorem for every pattern of the common shape (groups at fixed offsets from the two ends of the match, "
-              "adjacent, pieces matching their atoms); all 85 kit structures and the generic structures of every enzyme "
-              "of the family are proved, by reflection over tables regenerated from the working tree, to have that shape "
-              "with the cutter's site placed so that both cuts fall at the starts of groups 1 and 3. PARTIAL: the step "
-              "from the static framing to cut positions on the circle (frames_sound) and the no-inner-cut clause are "
-              "not proved in Coq; they are decided by the differential part: typing observables vs the model for all "
-              "classes with planted sites, neighbouring structures and mutations at all rotations, and an oracle that "
-              "recomputes the enzyme's cut positions by plain word search.")
+LEVEL_NOTE = ("Theorems for every pattern of the common shape: groups at fixed offsets from the two ends of the match, "
+              "adjacent, pieces matching their atoms; when the cutter's site is framed (static check) the starts of groups "
+              "1 and 3 are cut positions of the enzyme on the circle; when the sites flank the target, no occurrence of "
+              "the site on either strand anywhere in the matched stretch cuts strictly inside the target (the >3-fragment "
+              "screen of the linear digest is what guarantees it; modelled digest of Bio.Restriction tied by "
+              "correspondence); placeholder + target cover the circle once. By reflection over tables regenerated from "
+              "the working tree all 85 kit structures and the generic structures of every enzyme have the shape and are "
+              "framed, every cutter is non-palindromic, every kit module class but YTKPart234r (listed) and every generic "
+              "module class is flanking. Differential part: typing observables vs the model for all classes with planted "
+              "sites, neighbouring structures and mutations at all rotations, and an oracle that recomputes the enzyme's "
+              "cut positions by plain word search.")
 
 COMP = gens.COMP
 
